@@ -849,8 +849,8 @@ class LogixDriver(CIPDriver):
         data_type = DataTypes.get(typ)
         if data_type:
             type_class = DataTypes.get_type(typ)
-        if data_type is None:
-            instance_id = typ & 0b0000_1111_1111_1111
+        instance_id = typ & 0b0000_1111_1111_1111
+        if data_type is None and not typ & 0b_1000_0000_0000_0000:  # bit 15, 1 = struct, 0 = atomic
             type_class = DataTypes.get_type(instance_id)
             if type_class:
                 data_type = str(type_class)
